@@ -569,10 +569,12 @@ func callSSA(i *interpreter, caller *frame, callpos token.Pos, fn *ssa.Function,
 			if i.mode&EnableTracing != 0 {
 				fmt.Fprintln(os.Stderr, "\t(external)")
 			}
-			if eng != nil {
-				eng.noteExternal(name)
+			if r := ext(fr, args); r != value(extFallthrough) {
+				if eng != nil {
+					eng.noteExternal(name)
+				}
+				return r
 			}
-			return ext(fr, args)
 		}
 		if fn.Blocks == nil {
 			panic(pathTruncated{"unsupported: no code for function: " + name})
